@@ -2655,6 +2655,235 @@ def r14(cx):
     cx.floor(sum(per.values()), 7, 'constructions of a missing-option-argument error')
 
 
+# ---------------------------------------------------------------- R15: a rejected invocation carries no effect flag
+BUILTIN_RESULT = 'yash_env::builtin::Result'
+RETAIN_REDIRS = BUILTIN_RESULT + '::retain_redirs'
+CLEAR_REDIRS = BUILTIN_RESULT + '::clear_redirs'
+RETAIN_FLAG = 'should_retain_redirs'
+# the functions of yash_env::builtin through which the flag of a Result can become true (anchored by R15)
+FLAG_RAISERS = {RETAIN_REDIRS: 'sets it', BUILTIN_RESULT + '::max': 'takes the maximum of the flags of two results'}
+_SYNTAX_PARSE = re.compile(r'^yash_builtin::.*::syntax::parse$')
+
+
+def _flag_writers(F):
+    """{fn: how} for every function of yash_env::builtin that stores something other than the constant `false` in the flag
+    (field assignment, or construction of a Result whose flag operand is not the constant false)."""
+    out = {}
+    for fn, b in F.bodies.items():
+        if not fn.startswith('yash_env::builtin::') or is_test(fn):
+            continue
+        for _, _, st, kind, _f in Q.field_writes(b, BUILTIN_RESULT, RETAIN_FLAG):
+            o = st['rv'].get('o') if kind == 'assign' and st['rv']['k'] == 'use' else None
+            if kind == 'assign' and o is not None and o.get('c') == 'false':
+                continue
+            out[b.root] = 'writes the field'
+        for _, _, st in Q.find_aggregates(b, BUILTIN_RESULT):
+            rv = st['rv']
+            if RETAIN_FLAG not in rv.get('fields', []):
+                out[b.root] = 'builds a Result without naming the flag'
+                continue
+            o = rv['ops'][rv['fields'].index(RETAIN_FLAG)]
+            if o.get('c') != 'false':
+                out[b.root] = 'builds a Result with a computed flag'
+    return out
+
+
+def _borrowed_local(body, du, o, depth=8):
+    """The local whose value the reference operand `o` points to (follows `&mut x`, reborrows and named reference locals)."""
+    cur = Q.operand_place(o)
+    while cur is not None and depth:
+        depth -= 1
+        l = cur['l']
+        if not (body.locals[l].get('ty') or '').startswith('&'):
+            return l
+        d = du.single_def(l)
+        if d is None or d[1] == 't' or d[2]['k'] != 'assign':
+            return l
+        rv = d[2]['rv']
+        if rv['k'] == 'ref':
+            cur = rv['pl']
+        elif rv['k'] == 'use' and Q.operand_place(rv['o']) is not None:
+            cur = Q.operand_place(rv['o'])
+        else:
+            return l
+    return cur['l'] if cur is not None else None
+
+
+def _retained_flow(body, du, is_source, removed_edges=()):
+    """Forward may-analysis over the CFG of `body` (minus `removed_edges`): which locals may hold (or point to, or wrap - a
+    future, a Poll) a built-in Result whose retain-redirections flag is set. retain_redirs(&mut x) flags x, clear_redirs(&mut x)
+    and a whole assignment from an unflagged value unflag it; a move/copy/borrow/aggregate carries the flag; a call carries it
+    from an argument whose type mentions the Result to a destination whose type mentions it (Result::max, Clone, the await
+    machinery, a helper that passes a result through); `is_source(t)` says that the call's value is flagged by itself.
+    Returns ({block: state at entry - at the return for a returning block}, [(block, node)] where the return place becomes flagged)."""
+    def has_result(ty):
+        return BUILTIN_RESULT in (ty or '')
+
+    def transfer(b, st, hits=None):
+        st = set(st)
+        for s in body.blocks[b]['s']:
+            if s['k'] == 'dead':
+                st.discard(s['l'])
+                continue
+            if s['k'] != 'assign':
+                continue
+            lhs = s['lhs']
+            if any(p['l'] in st for p in Q.rvalue_places(s['rv'])):
+                st.add(lhs['l'])
+                if hits is not None and lhs['l'] == 0:
+                    hits.append((b, s))
+            elif not lhs.get('p'):
+                st.discard(lhs['l'])
+        t = body.blocks[b]['t']
+        if t['k'] == 'call':
+            d = t['dest']
+            if Q.callee_is(t, [RETAIN_REDIRS]) and t['a']:
+                st.add(_borrowed_local(body, du, t['a'][0]))
+            elif Q.callee_is(t, [CLEAR_REDIRS]) and t['a']:
+                st.discard(_borrowed_local(body, du, t['a'][0]))
+            else:
+                ats = t.get('at') or []
+                carried = is_source(t) or (has_result(body.locals[d['l']].get('ty')) and any(
+                    Q.operand_local(a) in st and has_result(ats[i] if i < len(ats) else body.locals[Q.operand_local(a)].get('ty'))
+                    for i, a in enumerate(t['a'])))
+                if carried:
+                    st.add(d['l'])
+                    if hits is not None and d['l'] == 0:
+                        hits.append((b, t))
+                elif not d.get('p'):
+                    st.discard(d['l'])
+        return st
+
+    removed_edges = set(removed_edges)
+    state = {0: frozenset()}
+    work = [0]
+    while work:
+        b = work.pop()
+        out = transfer(b, state[b])
+        for v in body.succ(b):
+            if (b, v) in removed_edges:
+                continue
+            old = state.get(v)
+            new = frozenset(out) if old is None else old | out
+            if new != old:
+                state[v] = new
+                work.append(v)
+    hits = []
+    for b in sorted(state):
+        out = transfer(b, state[b], hits)
+        if body.term(b)['k'] == 'return':
+            state[b] = frozenset(out)          # (for a returning block: the state at the return)
+    return state, hits
+
+
+def _returns_flagged(body, state):
+    return [b for b in body.return_blocks() if b in state and 0 in state[b]]
+
+
+@RS.rule('C20.R15', 'K-PASS', 'a malformed invocation is rejected with no effect: in every built-in that can ask for its redirections to be kept '
+         '(Result::retain_redirs - the exec built-in), the result returned when the argument parser answered Err does not carry the '
+         'should_retain_redirs flag - it is not a result on which retain_redirs was called, nor Result::max / a copy / a pass-through of '
+         'one (the converse of C09.R10, which wants the flag on every return after the arguments were accepted)')
+def r15(cx):
+    F = cx.F
+    cx.require(BUILTIN_RESULT in F.adts and any(f['name'] == RETAIN_FLAG for f in F.adts[BUILTIN_RESULT]['variants'][0]['fields']),
+               'yash_env::builtin::Result no longer has the field should_retain_redirs (anchor moved)')
+    cx.require(RETAIN_REDIRS in F.bodies, 'yash_env::builtin::Result::retain_redirs does not exist any more (anchor moved)')
+    writers = _flag_writers(F)
+    cx.site('functions of yash_env::builtin that can raise the flag: %s' % sorted(writers))
+    for fn, how in sorted(writers.items()):
+        cx.require(fn in FLAG_RAISERS, '%s %s (should_retain_redirs) and is not modelled by C20.R15: add it to FLAG_RAISERS and to the flow '
+                   'analysis' % (fn, how))
+    cx.require(RETAIN_REDIRS in writers, 'Result::retain_redirs no longer sets should_retain_redirs (anchor moved)')
+
+    def pool():
+        return [b for fn, b in sorted(F.bodies.items()) if fn.startswith('yash_builtin::') and not is_test(fn)]
+
+    # functions of yash-builtin whose returned result (or future of one) may be flagged: least fixpoint from the callers of retain_redirs
+    retaining = set()
+    flows = {}
+
+    def is_source(t):
+        nm = t['f'].get('def') or t['f'].get('decl')
+        return nm in retaining
+
+    def touches(b):
+        return any(Q.callee_is(t, [RETAIN_REDIRS]) or is_source(t) for _, t in b.calls())
+
+    changed = True
+    while changed:
+        changed = False
+        for b0 in pool():
+            if b0.root in retaining or not touches(b0):
+                continue
+            b = F.inlined(b0)
+            st, _ = _retained_flow(b, Q.DefUse(b), is_source)
+            if _returns_flagged(b, st) and F.main_body(b0.root) is b0:      # (a closure's value is not its parent's result)
+                retaining.add(b0.root)
+                changed = True
+    cands = [b0 for b0 in pool() if touches(b0)]
+    if not cands:
+        cx.site('no function of yash-builtin calls Result::retain_redirs: no built-in result can carry the flag (C09.R10 reports that for exec)')
+        return
+    checked = 0
+    for b0 in cands:
+        body = F.inlined(b0)
+        du = Q.DefUse(body)
+        cx.fn(b0.fn)
+        parsers = [(blk, t) for blk, t in body.calls()
+                   if Q.callee_is(t, [PARSE_ARGUMENTS, _SYNTAX_PARSE]) and 'core::result::Result' in (body.locals[t['dest']['l']].get('ty') or '')]
+        if not parsers and F.main_body(b0.root) is not b0:
+            cx.site('%s: a closure that calls a flag-raising built-in and parses no arguments (registration / wrapper): its value is the '
+                    'built-in\'s own result' % b0.fn)
+            continue
+        if not parsers:
+            called = F.callers_of(lambda names, t: b0.root in names)
+            called = [c for c in called if not is_test(c[0].fn)]
+            cx.site('%s: touches the flag, parses no arguments itself; its result %s; direct callers: %s'
+                    % (b0.fn, 'may be flagged' if b0.root in retaining else 'is never flagged', sorted({c[0].root for c in called}) or 'none'))
+            cx.require(b0.root not in retaining or called, '%s returns a result flagged retain-redirections, parses no arguments itself and has '
+                       'no direct caller: C20.R15 cannot tell which return is the rejection of a malformed invocation' % b0.fn)
+            continue
+        for pblk, pt in parsers:
+            ok_edges, err_targets = set(), set()
+            for u in sorted(body.live_blocks()):
+                if body.term(u)['k'] != 'switch':
+                    continue
+                ec = Q.edge_condition(F, body, du, u)
+                if ec is None or ec[0]['k'] != 'discr':
+                    continue
+                pl = ec[0]['pl']
+                if pl['l'] != pt['dest']['l'] and Q.value_source(body, du, {'cp': {'l': pl['l']}}) is not pt:
+                    continue
+                for v, labs in ec[1].items():
+                    if labs and all(l == ('variant', 'Ok') for l in labs):
+                        ok_edges.add((u, v))
+                    elif ('variant', 'Err') in labs:
+                        err_targets.add(v)
+            pname = (pt['f'].get('def') or pt['f'].get('decl')).split('::')[-1]
+            cx.require(ok_edges and err_targets, '%s: the result of %s at %s is not taken apart by a match on Ok/Err: C20.R15 cannot find the '
+                       'rejection path' % (b0.fn, pname, body.loc(pt)))
+            st, hits = _retained_flow(body, du, is_source, removed_edges=ok_edges)
+            bad = _returns_flagged(body, st)
+            checked += 1
+            cx.cellcount(1)
+            raised = [body.loc(t) for _, t in body.calls() if Q.callee_is(t, [RETAIN_REDIRS]) or is_source(t)]
+            cx.site('%s: flag raised at %s; executions in which %s (%s) answers Err reach %d return(s), %d of them with a result that may be '
+                    'flagged' % (b0.fn, raised, pname, body.loc(pt), len([r for r in body.return_blocks() if r in st]), len(bad)))
+            if not bad:
+                continue
+            node = hits[0][1] if hits else body.term(bad[0])
+            path = body.shortest_path(sorted(err_targets)[0], {hits[0][0]} if hits else set(bad)) or []
+            cx.violation(b0.root, 'rejected-invocation-keeps-redirections', 'when %s rejects the arguments, the built-in returns a result that '
+                         'may carry should_retain_redirs (a result on which retain_redirs was called, or Result::max / a copy of one): the '
+                         'simple-command executor then makes the redirections of the REJECTED command permanent - `exec --bogus 3>/out` in an '
+                         'interactive shell, or `command exec -x >file` in a script, leaves the descriptor redirected although the invocation '
+                         'was refused with a syntax error (a malformed invocation must have no effect)' % pname,
+                         loc=body.loc(node), path=Q.render_path(body, path) if path else None)
+    cx.require(checked >= 1, 'functions of yash-builtin raise the retain-redirections flag (%s) but none of them parses arguments: C20.R15 '
+               'found no rejection path to examine' % sorted({b.fn for b in cands}))
+
+
 # --- explanation addendum (generated catalogue in DESIGN.md reads RS.explanation)
 RS.explanation += " Added later: ulimit's long names agree with the resource selected by the short letter (R1b); the cut of `--name=value` is measured in the text the user typed (R3b). the user manual's -x (--long) pairs are pairs of the option tables (R6). getopts keeps scanning a group after any letter without argument (R9). kill reads only unsigned decimals as signal numbers (R10)."
 RS.explanation += " Every integer parse of operand text in the built-ins, job IDs, signal names, traps and option parsing sits behind a digit test, rejects the sign afterwards, or is a reviewed sign-tolerant site - `trap '' +2`, `kill -l +2`, `kill -s +9`, `%+1` are not numbers (R11, inventory of 19 sites, 12 reviewed entries). The name compared with `sh` at start-up is arg0 with the login hyphen removed (R12)."
@@ -2663,3 +2892,4 @@ RS.assumptions.append('C20.R13: what neither option function of a split parser c
                       'are listed in SPLIT_PARSERS; the option functions are found as the functions of the module the driver calls with the '
                       'peekable argument list); texts longer than 3 characters or with other characters behave like their 3-character '
                       'abstraction; a test of the text through a call without a model (bytes, char_indices, slicing) is not decided: exit 2')
+RS.explanation += " A built-in that can ask for its redirections to be kept (Result::retain_redirs: exec) returns, on every execution in which its argument parser answered Err, a result that does not carry should_retain_redirs - decided by a flow analysis of the flag through moves, copies, Result::max and awaits on the CFG without the parser's Ok edge; the functions of yash_env::builtin that can raise the flag are anchored (R15, converse of C09.R10)."
